@@ -562,6 +562,16 @@ func runScenario(t *rapid.T, sc *scenario) string {
 		case 1:
 			os.Setenv("CFG_CONFIG_B64", base64.StdEncoding.EncodeToString(real))
 			setEnv = append(setEnv, "CFG_CONFIG_B64")
+			// -config with the empty text names no file (a script passing "$CONFIG" through): the document comes from
+			// the environment as if the flag were absent
+			switch rapid.IntRange(0, 5).Draw(t, "emptyConfigFlag") {
+			case 0:
+				groups = append(groups, []string{"-config="})
+				ev.Label("empty_-config_with_CFG_CONFIG_B64")
+			case 1:
+				groups = append(groups, []string{"--config", ""})
+				ev.Label("empty_-config_with_CFG_CONFIG_B64")
+			}
 		}
 	}
 	order := rapid.Permutation(sc.fields).Draw(t, "cliorder")
